@@ -27,6 +27,17 @@ type NSliceAny []interface{}
 type NMapInt map[string]int
 type NMapAny map[string]interface{}
 type NBytes []byte
+type NUint uint
+type NUint8 uint8
+type NUint32 uint32
+type NUint64 uint64
+type NInt16 int16
+type NInt32 int32
+type NInt64 int64
+type NArr3 [3]int
+type NArrStr [2]NStr
+type NSliceN []NInt
+type NMapN map[string]NStr
 
 // ---- IsZeroer ----
 
@@ -225,6 +236,17 @@ var Pool = []PoolType{
 	{Name: "NMapInt", Type: reflect.TypeOf(NMapInt(nil))},
 	{Name: "NMapAny", Type: reflect.TypeOf(NMapAny(nil))},
 	{Name: "NBytes", Type: reflect.TypeOf(NBytes(nil))},
+	{Name: "NUint", Type: reflect.TypeOf(NUint(0))},
+	{Name: "NUint8", Type: reflect.TypeOf(NUint8(0))},
+	{Name: "NUint32", Type: reflect.TypeOf(NUint32(0))},
+	{Name: "NUint64", Type: reflect.TypeOf(NUint64(0))},
+	{Name: "NInt16", Type: reflect.TypeOf(NInt16(0))},
+	{Name: "NInt32", Type: reflect.TypeOf(NInt32(0))},
+	{Name: "NInt64", Type: reflect.TypeOf(NInt64(0))},
+	{Name: "NSliceN", Type: reflect.TypeOf(NSliceN(nil))},
+	{Name: "NMapN", Type: reflect.TypeOf(NMapN(nil))},
+	{Name: "NArr3", Type: reflect.TypeOf(NArr3{}), FoldOnly: true},
+	{Name: "NArrStr", Type: reflect.TypeOf(NArrStr{}), FoldOnly: true},
 	{Name: "ZeroVal", Type: reflect.TypeOf(ZeroVal{})},
 	{Name: "ZeroPtr", Type: reflect.TypeOf(ZeroPtr{})},
 	{Name: "WithEmb", Type: reflect.TypeOf(WithEmb{})},
